@@ -4,11 +4,86 @@ import os, json
 from vcheck import Infra, log
 
 PKG = "services/hh"
-FILES = ["hh/zz_verif_hh_test.go"]
+FILES = ["hh/zz_verif_hh_test.go", "hh/zz_verif_hhproc_test.go"]
 
 def consts_mc():
     return {"MaxSegW": 5, "MaxQW": 14, "Words": {1, 2}, "SegSizes": {3, 5}, "MaxBlocks": 3, "BufT": 2,
             "MaxTok": 2, "Apps": ["a1", "a2"], "Dev": ['"ackBeforeDurable"'], "MaxSegId": 3, "MaxSent": 0}
+
+PROPERTY_EVENTS = ("empty.ret", "current.ret", "drain", "append.ret", "close.ret", "open")
+
+def validate_traces(ctx, sd, files, maxqw):
+    """Concatenate recorded traces (each starts with a reset line) and validate them in one TLC run.
+    On rejection, bisect to the rejected trace and classify by the first unmatched event."""
+    consts = {"MaxSegW": 12, "MaxQW": maxqw, "Words": {1}, "SegSizes": {1}, "MaxBlocks": 1, "BufT": 10, "MaxTok": 1024,
+              "Apps": ["a1"], "Dev": ['"ackBeforeDurable"'], "MaxSegId": 99, "MaxSent": 99}
+    ctx.write_cfg(sd, "Trace.cfg", "TraceSpec", consts, ["C04_NoLoss", "C04_Order"], extra="POSTCONDITION TraceAccepted")
+    def run(fs):
+        cat = os.path.join(ctx.scratch, "cat-%d.ndjson" % len(os.listdir(ctx.scratch)))
+        with open(cat, "w") as out:
+            for f in fs:
+                out.write(open(f).read())
+        return ctx.tlc_trace(sd, "HHQueueTrace", cat, "Trace.cfg", timeout=600), cat
+    res, cat = run(files)
+    if res["accepted"]:
+        return len(files), []
+    bad = []
+    for f in files:          # find the rejected ones individually (few and short)
+        r, c = run([f])
+        if not r["accepted"]:
+            lines = open(f).read().splitlines()
+            nxt = json.loads(lines[r["matched"]]) if 0 <= r["matched"] < len(lines) else {"e": "?"}
+            bad.append((f, r, nxt))
+    return len(files) - len(bad), bad
+
+def concurrent(ctx, sd):
+    if ctx.replay:
+        rp = json.load(open(ctx.replay))["replay"]
+        if rp.get("test") != "T":
+            return {}
+        p = ctx.write_json("replay-trace.ndjson", None)
+        with open(p, "w") as fh:
+            fh.write("\n".join(json.dumps(e) for e in rp["events"]) + "\n")
+        ok, bad = validate_traces(ctx, sd, [p], rp["maxqw"])
+        for f, r, nxt in bad:
+            ctx.report_mismatch("trace:" + nxt.get("e", "?"), "trace rejected at line %d: %s (violated: %s)" % (r["matched"] + 1, nxt, r["violated"]), rp)
+        return {}
+    tdir = os.path.join(ctx.scratch, "traces")
+    os.makedirs(tdir, exist_ok=True)
+    maxqw = [100000, 120, 100000][ctx.seed % 3]
+    rounds = ctx.pick(24, 200)
+    recs, out, rc = ctx.go_test(PKG, FILES, "^TestVerifHHConcurrent$", env={"VERIF_TRACE_DIR": tdir, "VERIF_ROUNDS": rounds, "VERIF_MAXQW": maxqw},
+                                timeout=900, label="concurrent")
+    done = ctx.process(recs, out, rc, "TestVerifHHConcurrent")
+    files = [r["file"] for r in recs if r.get("k") == "trace"]
+    if not files:
+        raise Infra("concurrent driver produced no traces")
+    ok, bad = validate_traces(ctx, sd, files, maxqw)
+    notes = []
+    for f, r, nxt in bad:
+        evs = [json.loads(x) for x in open(f).read().splitlines()]
+        if r["violated"] or nxt.get("e") in PROPERTY_EVENTS:
+            # a recorded real execution on which a C04 invariant fails / whose observable answer the model forbids
+            ctx.report_mismatch("trace:" + (r["violated"][0].split()[1] if r["violated"] else nxt.get("e")),
+                                "recorded execution rejected at line %d: %s (violated: %s)" % (r["matched"] + 1, nxt, r["violated"]),
+                                {"test": "T", "maxqw": maxqw, "events": evs})
+        else:
+            notes.append("conformance: trace %s not matched at internal event %s (line %d)" % (os.path.basename(f), nxt, r["matched"] + 1))
+    ctx.cov["traces_validated_against_impl"] += ok
+    if not ctx.quick():
+        # negative control: the binding must be able to reject -- drop the first append.locked line of a trace
+        lines = open(files[0]).read().splitlines()
+        idx = next((i for i, x in enumerate(lines) if '"append.locked"' in x), None)
+        if idx is not None:
+            neg = os.path.join(ctx.scratch, "negative.ndjson")
+            open(neg, "w").write("\n".join(lines[:idx] + lines[idx + 1:]) + "\n")
+            okn, badn = validate_traces(ctx, sd, [neg], maxqw)
+            if not badn:
+                raise Infra("negative control: a trace with a deleted linearization event was accepted")
+    if files:
+        ctx.add_sample({"trace_prefix": open(files[0]).read().splitlines()[:12]})
+    return {"concurrent_traces": len(files), "concurrent_traces_accepted": ok, "concurrent_events": done.get("events", 0),
+            "conformance_notes": notes}
 
 def run(ctx):
     sd = ctx.spec_dir("hhqueue")
@@ -35,7 +110,7 @@ def run(ctx):
     num = ctx.pick(300, 3000)
     if ctx.replay:
         rp = json.load(open(ctx.replay))["replay"]
-        inp = {"consts": rp["consts"], "behaviours": [rp["behaviour"]]}
+        inp = {"consts": rp.get("consts"), "behaviours": [rp.get("behaviour")]}
     else:
         ctx.write_cfg(sd, "GenQ.cfg", "GSpecQ", gc, extra="INVARIANT Emit")
         behs = ctx.tlc_generate(sd, "HHQueueGen", "GenQ.cfg", num=num, depth=gl + 1)[:num * 3]
@@ -46,11 +121,39 @@ def run(ctx):
     def confirm(rp):
         recs, out, rc = run_q({"consts": rp["consts"], "behaviours": [rp["behaviour"]]}, "confirm")
         return any(r.get("k") == "mismatch" for r in recs)
-    recs, out, rc = run_q(inp, "replay")
-    done = ctx.process(recs, out, rc, "TestVerifHHReplayQ", confirm)
+    done = {}
+    if not ctx.replay or json.load(open(ctx.replay))["replay"].get("test") == "Q":
+        recs, out, rc = run_q(inp, "replay")
+        done = ctx.process(recs, out, rc, "TestVerifHHReplayQ", confirm)
     ctx.cov["traces_validated_against_impl"] += done.get("behaviours", 0)
+    # 2b. processor level: behaviours of the queue under SendWrite, replayed on the real NodeProcessor; stress
+    if not ctx.replay or json.load(open(ctx.replay))["replay"].get("test") == "P":
+        gp = dict(gc, MaxSegW=4000, MaxQW=100000, Words={1}, SegSizes={4000})
+        if ctx.replay:
+            rp = json.load(open(ctx.replay))["replay"]
+            inp_p = {"consts": rp["consts"], "behaviours": [rp["behaviour"]]}
+        else:
+            ctx.write_cfg(sd, "GenP.cfg", "GSpecP", gp, extra="INVARIANT Emit")
+            nump = ctx.pick(150, 1500)
+            behs_p = ctx.tlc_generate(sd, "HHQueueGen", "GenP.cfg", num=nump, depth=gl + 1)[:nump * 2]
+            inp_p = {"consts": {k: v for k, v in gp.items() if isinstance(v, int)}, "behaviours": behs_p}
+        def run_p(inp, label):
+            p = ctx.write_json("behP-%s.json" % label, inp)
+            return ctx.go_test(PKG, FILES, "^TestVerifHHReplayP$", env={"VERIF_IN": p}, timeout=900, label=label)
+        def confirm_p(rp):
+            recs, out, rc = run_p({"consts": rp["consts"], "behaviours": [rp["behaviour"]]}, "confirmP")
+            return any(r.get("k") == "mismatch" for r in recs)
+        recs, out, rc = run_p(inp_p, "replayP")
+        done_p = ctx.process(recs, out, rc, "TestVerifHHReplayP", confirm_p)
+        ctx.cov["traces_validated_against_impl"] += done_p.get("behaviours", 0)
+    if not ctx.replay:
+        recs, out, rc = ctx.go_test(PKG, FILES, "^TestVerifHHProcStress$", env={"VERIF_ROUNDS": ctx.pick(30, 200)}, timeout=900, label="procstress")
+        ctx.process(recs, out, rc, "TestVerifHHProcStress")
+    # 3. real concurrent executions (buffered path, racing Close) -> HHQueueTrace
+    tr = concurrent(ctx, sd)
     extra = {"replayed_behaviours": done.get("behaviours", 0), "replayed_steps": done.get("steps", 0),
              "crash_images_recovered": done.get("crash_images_recovered", 0)}
+    extra.update(tr)
     return ctx.finish("model_checking", extra, assumptions=[
         "crash model: process death at a durable step (hooks in flush/advance/trim) plus any truncation of the un-synced bytes of the flush in progress",
         "hashicorp/raft, OS page cache and fsync semantics are trusted"])
